@@ -21,14 +21,14 @@ const c07Rule = "rapid: schema-valid AuthnRequest / LogoutRequest / AttributeQue
 
 type C07Case struct {
 	// BOM: the XML text starts with a UTF-8 byte order mark; Chunked: the HTTP body is sent without announced length
-	BOM     bool `json:"bom,omitempty"`
-	Chunked bool `json:"chunked,omitempty"`
-	Kind   string          `json:"kind"` // authn | logout | attrquery
-	SSO    SSOCase         `json:"sso"`  // Spec, Host, SP, Style, Sign, RSign, Tr (+ Req for authn)
-	Logout spsim.LogoutReq `json:"logout"`
-	Query  spsim.AttrQuery `json:"query"`
-	Soap   string          `json:"soap_prefix"`
-	CData  bool            `json:"issuer_as_cdata,omitempty"`
+	BOM     bool            `json:"bom,omitempty"`
+	Chunked bool            `json:"chunked,omitempty"`
+	Kind    string          `json:"kind"` // authn | logout | attrquery
+	SSO     SSOCase         `json:"sso"`  // Spec, Host, SP, Style, Sign, RSign, Tr (+ Req for authn)
+	Logout  spsim.LogoutReq `json:"logout"`
+	Query   spsim.AttrQuery `json:"query"`
+	Soap    string          `json:"soap_prefix"`
+	CData   bool            `json:"issuer_as_cdata,omitempty"`
 }
 
 func genC07Case(t *rapid.T) C07Case {
